@@ -87,6 +87,13 @@ class SProg:
         out, stage = [], "main"
         for it in self.items:
             st = "macro" if it[0] == "macro" else "main"
+            if it[0] == "raw":
+                # module declarations / imports that the staged program never references (C10: names that are merely VISIBLE)
+                if stage != "main":
+                    out.append("#stage(main)")
+                    stage = "main"
+                out.append(it[1])
+                continue
             if st != stage:
                 out.append(f"#stage({st})")
                 stage = st
@@ -103,6 +110,8 @@ class SProg:
                 parts.append("(m " + it[1].sx() + ")")
             elif it[0] == "g":
                 parts.append(f"(g {it[1]} {coregen.sx(it[2])})")
+            elif it[0] == "raw":
+                continue
             else:
                 parts.append(it[1].sx())
         return "(sprog " + " ".join(parts) + ")"
@@ -618,6 +627,26 @@ C10_TEMPLATES = [
     ("rebind", lambda B: Node("let", B, _l("10.0"), Node("let", B, _b("add", _v(B), _sp("x")), _v(B)))),
 ]
 
+# templates that hand a quotation mentioning the binder to the helper macro `hh` from inside an escape:
+#   `{ let B = 10.0; $(hh(`{B})) + $x }      the inner quotation is lexically inside the outer one, B is bound there
+def _hh(e):
+    return Node("splice", Node("app", _v("hh"), [Node("quote", e)]))
+
+
+C10_HELPER = ("hh", ["c"], lambda: Node("quote", _b("add", _sp("c"), _sp("c"))))
+C10_TEMPLATES_NESTED = [
+    ("nested-quote-let", lambda B: Node("let", B, _l("10.0"), _b("add", _hh(_v(B)), _sp("x")))),
+    ("nested-quote-lam", lambda B: Node("let", "f", Node("lam", [B], _b("add", _hh(_v(B)), _sp("x"))), Node("app", _v("f"), [_l("5.0")]))),
+    ("nested-quote-tuple", lambda B: Node("lett", [B, "u"], Node("tup", [_sp("x"), _l("3.0")]), _b("add", _hh(_b("add", _v(B), _v("u"))), _sp("x")))),
+]
+# names that are merely VISIBLE where the macro is defined and used: members of a module imported by wildcard / by an
+# explicit `use` (functions; nothing in the program refers to them)
+C10_VISIBLE = {
+    "wild": "mod fx {\n  pub fn q7(){\n    100.0\n  }\n  pub fn other(){\n    7.0\n  }\n}\nuse fx::*",
+    "alias": "mod fx {\n  pub fn q7(){\n    100.0\n  }\n}\nuse fx::q7",
+}
+VISIBLE_NAME = "q7"
+
 # argument code (only pool names and time)
 C10_ARGS = [
     ("y", lambda: _v("y")), ("z", lambda: _v("z")), ("w", lambda: _v("w")), ("now", lambda: Node("now")),
@@ -665,10 +694,11 @@ def all_names(n):
     return out
 
 
-def c10_case(ti, ai, bound, globals_, fi, B, B2):
+def c10_case(ti, ai, bound, globals_, fi, B, B2, visible=None):
     """one (original, renamed) pair. bound = pool names bound as locals at the use site before the call,
-    globals_ = pool names bound as globals. Returns None when the use site would mention an unbound name."""
-    tname, tb = C10_TEMPLATES[ti]
+    globals_ = pool names bound as globals. Returns None when the use site would mention an unbound name.
+    visible = None | "wild" | "alias": a module member named VISIBLE_NAME is importable where the macro stands."""
+    tname, tb = (C10_TEMPLATES + C10_TEMPLATES_NESTED)[ti]
     aname, ab = C10_ARGS[ai]
     fname, fb = C10_AFTER[fi]
     arg, after = ab(), fb()
@@ -682,11 +712,13 @@ def c10_case(ti, ai, bound, globals_, fi, B, B2):
         for x in reversed(bound):
             body = Node("let", x, _l(POOL_VALUE[x]), body)
         dsp = Fn("dsp", [], [], F, body, False, True)
-        return SProg([("macro", m)] + [("g", x, _l(POOL_VALUE[x] + "1")) for x in globals_] + [("fn", dsp)])
+        pre = [("raw", C10_VISIBLE[visible])] if visible else []
+        helper = [("macro", MFn(C10_HELPER[0], C10_HELPER[1], C10_HELPER[2]()))] if tname.startswith("nested-") else []
+        return SProg(pre + helper + [("macro", m)] + [("g", x, _l(POOL_VALUE[x] + "1")) for x in globals_] + [("fn", dsp)])
     tmpl_names = all_names(tb(B)) - {B}
     noclash = (B not in free_names(arg) and B2 not in free_names(arg) and B2 not in tmpl_names
                and B not in bound and B2 not in bound and B not in globals_ and B2 not in globals_)
-    return dict(orig=build(B), ren=build(B2), noclash=noclash, template=tname, arg=aname, after=fname, bound=list(bound),
+    return dict(orig=build(B), ren=build(B2), noclash=noclash, template=tname + (("@" + visible) if visible else ""), arg=aname, after=fname, bound=list(bound),
                 globals=list(globals_), binder=B, new=B2,
                 why=[w for w, c in (("arg mentions binder", B in free_names(arg)), ("arg mentions new name", B2 in free_names(arg)),
                                     ("template uses new name", B2 in tmpl_names), ("use site binds binder", B in bound or B in globals_),
@@ -711,6 +743,25 @@ def c10_all():
                                 c = c10_case(ti, ai, bound, gl, fi, B, B2)
                                 if c is not None:
                                     yield c
+    # (a) the templates with a quotation nested in an escape, plain context; (b) every template where the NEW binder name is
+    # the name of a module member visible through `use fx::*` / `use fx::q7` (nothing refers to that member: the renamed binder
+    # must keep meaning itself in the quotation and in every quotation nested in it)
+    nT = len(C10_TEMPLATES)
+    for ti in range(nT + len(C10_TEMPLATES_NESTED)):
+        for ai in range(len(C10_ARGS)):
+            for bound in [(), ("y", "z"), ("y", "z", "w")]:
+                for fi in (0, 1):
+                    for B in POOL:
+                        if ti >= nT:
+                            for B2 in POOL + [FRESH]:
+                                if B2 != B:
+                                    c = c10_case(ti, ai, bound, (), fi, B, B2)
+                                    if c is not None:
+                                        yield c
+                        for vis in ("wild", "alias"):
+                            c = c10_case(ti, ai, bound, (), fi, B, VISIBLE_NAME, visible=vis)
+                            if c is not None:
+                                yield c
 
 
 # ---------------------------------------------------------------------------------------------------------------
